@@ -318,6 +318,11 @@ def guarded_positive(facts, f, site_bb, op):
         if t["k"] != "SwitchInt":
             continue
         dl = local_of(t["discr"])
+        # `match x { 0 => .., i => .. i - 1 .. }`: a switch on the value itself whose `otherwise` edge leaves 0 behind
+        if dl is not None and _same_value(facts, f, dl, l) and "0" in [str(v) for v in t.get("vals", [])]:
+            other = t["succ"][-1]
+            if len(t["succ"]) == len(t.get("vals", [])) + 1 and (other in dom.get(site_bb, ()) or other == site_bb):
+                return True
         # find the comparison defining the discriminant
         for st in blocks[d]["stmts"]:
             if st["ll"] == dl and st["rv"] == "BinaryOp" and st["op"] in ("Gt", "Ne", "Lt"):
